@@ -37,14 +37,47 @@ Alphabet == IF Full THEN Core \cup Extra ELSE Core
 ASSUME \A k \in DOMAIN Operands : WellFormed(Operands[k]) /\ PrintT(<<"KDEF", k, Operands[k]>>)
 ASSUME \A k \in DOMAIN Lists : PrintT(<<"LDEF", k, Lists[k]>>)
 
+\* ---- second family: set algebra between containers of every kind and relative size.
+\* The left operand is built by a named construction (empty, single, members
+\* adjacent to the right operand's edges, small array, array at the 4095/4096
+\* threshold, bitmap, single run, sparse array), then ONE binary operation is
+\* applied with every right operand (array / bitmap / run containers, empty,
+\* single, skewed sizes) in both argument orders.
+Builders ==
+  [ empty |-> <<>>,
+    single |-> << O("Add", 100, 0, "") >>,
+    below |-> << O("Add", 99, 0, ""), O("Add", 100, 0, "") >>,
+    above |-> << O("Add", 299, 0, ""), O("Add", 300, 0, "") >>,
+    gap |-> << O("Add", 50, 0, ""), O("Add", 65535, 0, "") >>,
+    small |-> << O("AddMany", 0, 0, "L1") >>,
+    run |-> << O("AddRange", 100, 300, "") >>,
+    runbig |-> << O("AddRange", 0, 5000, "") >>,
+    arr4095 |-> << O("Or", 0, 0, "K8") >>,
+    arr4096 |-> << O("Or", 0, 0, "K4") >>,
+    bits |-> << O("Or", 0, 0, "K1") >>,
+    sparse |-> << O("Or", 0, 0, "K9") >>,
+    mixed |-> << O("Or", 0, 0, "K3"), O("Remove", 20000, 0, "") >> ]
+AlgOps == {"Or", "And", "Xor", "AndNot", "ROr", "RAnd", "RXor", "RAndNot"}
+RECURSIVE ApplySeq(_, _)
+ApplySeq(S, ops) == IF ops = <<>> THEN S ELSE ApplySeq(Apply(S, Head(ops)).set, Tail(ops))
+AsHist(ops) == [i \in 1..Len(ops) |-> <<ops[i].op, ops[i].a, ops[i].b, ops[i].k>>]
+
 VARIABLES set, hist
 vars == <<set, hist>>
 Init == set = Empty /\ hist = <<>>
+Algebra == /\ hist = <<>>
+           /\ \E b \in DOMAIN Builders, op \in AlgOps, k \in DOMAIN Operands :
+                LET o == O(op, 0, 0, k)
+                    h == Append(AsHist(Builders[b]), <<op, 0, 0, k>>) IN
+                /\ set' = Apply(ApplySeq(Empty, Builders[b]), o).set
+                \* padded so that it is never extended by Step and never confused with a walk
+                /\ hist' = h \o [i \in 1..(Depth + 1 - Len(h)) |-> <<"Clone", 0, 0, "">>]
+                /\ PrintT(<<"WALK", hist'>>)
 Step(o) == /\ Len(hist) < Depth
            /\ set' = Apply(set, o).set
            /\ hist' = Append(hist, <<o.op, o.a, o.b, o.k>>)
            /\ (Len(hist') = Depth => PrintT(<<"WALK", hist'>>))
-Next == \E o \in Alphabet : Step(o)
+Next == (\E o \in Alphabet : Step(o)) \/ Algebra
 Spec == Init /\ [][Next]_vars
 
 \* invariants of the abstract machine itself
